@@ -155,16 +155,38 @@ func (m *vmModel) makeRoom(space uint64) bool {
 	return true
 }
 
+// create admits the blob iff it fits after evicting a (minimal) prefix of the
+// LRU queue. When it cannot fit even then, the model evicts nothing itself: the
+// store may have evicted any prefix of the queue before giving up (the
+// current code evicts everything evictable first) — the harness adopts what it
+// observes through adoptFailedCreateEvictions and the usual checks verify the
+// rest.
 func (m *vmModel) create(k int, size uint64) int {
 	if m.blobs[k].present {
 		return vrExist
 	}
-	if !m.makeRoom(size) {
+	trial := *m
+	trial.lru = append([]int{}, m.lru...)
+	if !trial.makeRoom(size) {
 		return vrNoSpace
 	}
+	*m = trial
 	m.reserved += size
 	m.blobs[k] = vmBlob{present: true, size: size}
 	return vrOK
+}
+
+// adoptFailedCreateEvictions: after a Create that failed for lack of space,
+// the leading LRU blobs that the store no longer has were evicted by it.
+func (h *vmH) adoptFailedCreateEvictions() {
+	m := h.m
+	for len(m.lru) > 0 {
+		if in, _ := h.s.Has(vmKeys[m.lru[0]]); in {
+			break
+		}
+		m.evicted++
+		m.drop(m.lru[0])
+	}
 }
 
 func (m *vmModel) open(k int, scope storelib.BlobScope) int {
@@ -311,6 +333,9 @@ func (h *vmH) do(op, k int, scope storelib.BlobScope) {
 		f, err := v.Create(key, size)
 		want := m.create(k, size)
 		verif.Assert("create-result", vmClass(err) == want)
+		if want == vrNoSpace {
+			h.adoptFailedCreateEvictions()
+		}
 		verif.Cover("create-ok", err == nil)
 		if err == nil {
 			f.Close()
